@@ -212,6 +212,15 @@ def run_case(case):
         if orig is not None:
             ep.create_state_choice_space = orig
     add("declaration_orders")
+    # the layout is a property of every call: a second call of the same function object (params
+    # leaves of another type, which re-traces a jitted function) must return the same list
+    try:
+        out_b = pipeline.to_np_list(f(dsl.lcm_params(params, leaf="np0d")))
+        add("second_calls")
+        if len(out_b) != len(out) or any(a.shape != b.shape for a, b in zip(out, out_b)):
+            res["violations"].append({"key": "list_length", "what": f"second call of the same solve function returns {len(out_b)} arrays with shapes {[a.shape for a in out_b][:4]}; the first call returned {len(out)} arrays with shapes {[a.shape for a in out][:4]}"})
+    except Exception as e:  # noqa: BLE001
+        res["violations"].append({"key": pipeline.exc_key(e, "second_call"), "what": pipeline.exc_text(e)})
     if not isinstance(out, list) or len(out) != ref.T:
         res["violations"].append({"key": "list_length", "what": f"solution has {len(out)} arrays for {ref.T} periods"})
     else:
